@@ -239,7 +239,8 @@ pub enum Final {
 }
 
 /// Run one case: build the tree, apply `ops` through access path `path`, then finish.
-pub fn run_case(o: &mut Obs, spec: &Spec, ops: &[ROp], path: usize, fin: Final, case: &str) {
+pub fn run_case(o: &mut Obs, spec: &Spec, ops: &[ROp], path: usize, fin: Final, case: &str) -> u64 {
+    let mut dg: u64 = 0;
     let model = spec.model();
     let mut bounds = Vec::new();
     spec.boundaries(0, &mut bounds);
@@ -251,7 +252,7 @@ pub fn run_case(o: &mut Obs, spec: &Spec, ops: &[ROp], path: usize, fin: Final, 
     o.inc("cases");
     if let Some((s, d)) = laws(&*root, &rest) {
         report(o, spec, &s, case, &format!("fresh tree: {d}"), false);
-        return;
+        return 0xBAD0;
     }
     for op in ops {
         o.inc("steps");
@@ -283,14 +284,16 @@ pub fn run_case(o: &mut Obs, spec: &Spec, ops: &[ROp], path: usize, fin: Final, 
         };
         o.cell(format!("rd|{}|{}|{}|p{}", spec.shape().split('(').next().unwrap_or(""), opname(op), bclass(before, consumed, &bounds), path));
         match st {
-            Step::Ok => {}
+            Step::Ok => {
+                dg = crate::rng::fnv_u64(dg, 1 + consumed as u64 * 4);
+            }
             Step::EndedByExpectedPanic => {
                 o.inc("expected_panics");
-                return;
+                return crate::rng::fnv_u64(dg, 2);
             }
             Step::Bad(sig, d) => {
                 report(o, spec, &sig, case, &format!("{d}; ops={ops:?} path={}", super::getters::PATHS[path]), false);
-                return;
+                return crate::rng::fnv_u64(dg, 3);
             }
         }
     }
@@ -305,7 +308,7 @@ pub fn run_case(o: &mut Obs, spec: &Spec, ops: &[ROp], path: usize, fin: Final, 
             o.inc("into_iter_runs");
             if got[..] != rest[..k] || hint != (rest.len(), Some(rest.len())) {
                 report(o, spec, "into_iter", case, &format!("into_iter yielded {:?} (size_hint {:?}), expected {:?}", got, hint, &rest[..k]), false);
-                return;
+                return crate::rng::fnv_u64(dg, 5);
             }
             consumed += k;
             root = it.into_inner();
@@ -320,12 +323,12 @@ pub fn run_case(o: &mut Obs, spec: &Spec, ops: &[ROp], path: usize, fin: Final, 
                 Ok(n) if n == want && dst[..n] == rest[..n] => {}
                 other => {
                     report(o, spec, "reader-read", case, &format!("Reader::read(buf of {k}) with {} available returned {:?} / {:?}", rest.len(), other, &dst[..want.min(12)]), true);
-                    return;
+                    return crate::rng::fnv_u64(dg, 5);
                 }
             }
             if rd.get_ref().remaining() != rest.len() - want {
                 report(o, spec, "reader-get_ref", case, "Reader::get_ref().remaining() after read is wrong", true);
-                return;
+                return crate::rng::fnv_u64(dg, 5);
             }
             consumed += want;
             root = rd.into_inner();
@@ -342,7 +345,7 @@ pub fn run_case(o: &mut Obs, spec: &Spec, ops: &[ROp], path: usize, fin: Final, 
                 }
                 other => {
                     report(o, spec, "reader-fill_buf", case, &format!("Reader::fill_buf returned {:?}", other), true);
-                    return;
+                    return crate::rng::fnv_u64(dg, 5);
                 }
             }
             root = rd.into_inner();
@@ -355,7 +358,7 @@ pub fn run_case(o: &mut Obs, spec: &Spec, ops: &[ROp], path: usize, fin: Final, 
             o.inc("reader_ops");
             if r.is_err() || dst[..] != rest[..k] {
                 report(o, spec, "reader-read_exact", case, &format!("read_exact({k}) with {} available returned {:?} / {:?}", rest.len(), r.map_err(|e| e.to_string()), &dst[..k.min(12)]), true);
-                return;
+                return crate::rng::fnv_u64(dg, 5);
             }
             consumed += k;
             root = rd.into_inner();
@@ -369,7 +372,7 @@ pub fn run_case(o: &mut Obs, spec: &Spec, ops: &[ROp], path: usize, fin: Final, 
                 Ok(n) if n == rest.len() && v == rest => {}
                 other => {
                     report(o, spec, "reader-read_to_end", case, &format!("read_to_end returned {:?} with {} bytes, expected {}", other.map_err(|e| e.to_string()), v.len(), rest.len()), true);
-                    return;
+                    return crate::rng::fnv_u64(dg, 5);
                 }
             }
             consumed += rest.len();
@@ -383,7 +386,9 @@ pub fn run_case(o: &mut Obs, spec: &Spec, ops: &[ROp], path: usize, fin: Final, 
     o.add("dismantled_nodes", cnt);
     if let Some(e) = errs.first() {
         report(o, spec, "dismantle", case, &format!("{e}; after {consumed} bytes; ops={ops:?} fin={fin:?}"), true);
+        return crate::rng::fnv_u64(dg, 7);
     }
+    crate::rng::fnv_u64(dg, 11 + consumed as u64)
 }
 
 // ------------------------------------------------------------------ generators
